@@ -26,6 +26,16 @@ func phiWebReaches(v, target ssa.Value, seen map[ssa.Value]bool) bool {
 			}
 		}
 	}
+	// a local spilled to memory (captured by a defer / closure): its loads see every store to the cell
+	if u, ok := v.(*ssa.UnOp); ok && u.Op == token.MUL {
+		if a, ok := u.X.(*ssa.Alloc); ok && a.Referrers() != nil {
+			for _, r := range *a.Referrers() {
+				if st, ok := r.(*ssa.Store); ok && st.Addr == ssa.Value(a) && phiWebReaches(st.Val, target, seen) {
+					return true
+				}
+			}
+		}
+	}
 	return false
 }
 
@@ -71,9 +81,8 @@ func phiWeb(fn *ssa.Function, start ssa.Value) map[*ssa.Phi]bool {
 	return web
 }
 
-func ruleSTICKY(p *Program, rep *Report) {
-	rep.Rule("STICKY", 3, "in writer.Run every write/sync I/O call is dominated by `err == nil` on the loop-carried error that its own result feeds; the error is only reset to nil under syncFlags.Test(syncResetErr)")
-	rep.Rule("RELEASE", 2, "every dequeued write/sync message is Release()d on every path (not only when I/O was attempted), after the error has been stored into its txWriteSync")
+func ruleSTICKYSSA(p *Program, rep *Report) {
+	rep.Rule("STICKY", 2, "every write/sync I/O call of the background writer is dominated by `err == nil` on the sticky writer error that its own result feeds (directly in writer.Run, or in a helper whose error parameter / result carry it); the error is only reset to nil under syncFlags.Test(syncResetErr)")
 	run := p.Method("txfile", "writer", "Run")
 	writeAt := p.Func("txfile", "writeAt")
 	execSync := p.Method("txfile", "writer", "execSync")
@@ -86,7 +95,6 @@ func ruleSTICKY(p *Program, rep *Report) {
 	}
 	resetBit, _ := constant.Int64Val(resetC.Value.Value)
 	rep.Analysed(funcName(run))
-	pd := postDominators(run)
 
 	isIO := func(callee *ssa.Function, c ssa.CallInstruction) bool {
 		if callee == writeAt || callee == execSync {
@@ -94,58 +102,179 @@ func ruleSTICKY(p *Program, rep *Report) {
 		}
 		if c.Common().IsInvoke() {
 			m := c.Common().Method.Name()
-			return m == "WriteAt" || m == "Sync"
+			return (m == "WriteAt" || m == "Sync") && isNamed(c.Common().Value.Type(), modPath, "writable")
 		}
 		return false
 	}
-	ios := callsIn(run, isIO)
-	var webRoot ssa.Value
-	for _, c := range ios {
-		call, ok := c.(*ssa.Call)
-		if !ok {
-			rep.Bad("STICKY", "writer.Run|deferred-io", p.InstrPos(c), "I/O call in writer.Run is deferred / spawned")
-			continue
-		}
-		name := "invoke"
-		if sc := c.Common().StaticCallee(); sc != nil {
-			name = sc.Name()
-		} else {
-			name = c.Common().Method.Name()
-		}
-		key := "writer.Run|" + name
-		facts := blockFacts(call.Block())
-		good := facts.every(func(cj conj) bool {
+	resetGuard := func(facts dnf) bool {
+		return facts.every(func(cj conj) bool {
 			return cj.has(func(a atom) bool {
-				op, x, y, ok := cmpAtom(a)
-				if !ok || op != token.EQL {
+				c := callTo(a.v, testFn)
+				if c == nil || !a.pol {
 					return false
 				}
-				var e ssa.Value
-				if isNilConst(y) {
-					e = x
-				} else if isNilConst(x) {
-					e = y
-				} else {
+				args := c.Common().Args
+				k, ok := stripConv(args[len(args)-1]).(*ssa.Const)
+				if !ok || k.Value == nil {
 					return false
 				}
-				if !errorLike(e.Type()) {
-					return false
-				}
-				// sticky: the guarded call's own result flows back into the guard through φs
-				if phiWebReaches(e, call, map[ssa.Value]bool{}) {
-					webRoot = e
-					return true
-				}
-				return false
+				n, _ := constant.Int64Val(k.Value)
+				return n&resetBit != 0
 			})
 		})
-		if good {
-			rep.OK("STICKY", key, p.InstrPos(call), "guarded by err == nil on the loop-carried writer error")
-		} else {
-			rep.Bad("STICKY", key, p.InstrPos(call), "I/O call in the writer loop is not guarded by `err == nil` on the sticky writer error: after a failed write the writer keeps writing (pages of a failed transaction reach the file, a later sync may report success)")
+	}
+	// nilGuard: the error value e such that the block is dominated by e == nil
+	nilGuards := func(b *ssa.BasicBlock) []ssa.Value {
+		var out []ssa.Value
+		facts := blockFacts(b)
+		if len(facts) == 0 {
+			return nil
 		}
-		// RELEASE for this message: a Release call in a block post-dominating the guard block, preceded by the err store
-		guardBlock := call.Block().Idom()
+		// candidates from the first disjunct, kept if present in all
+		for _, a := range facts[0] {
+			op, x, y, ok := cmpAtom(a)
+			if !ok || op != token.EQL {
+				continue
+			}
+			var e ssa.Value
+			if isNilConst(y) {
+				e = x
+			} else if isNilConst(x) {
+				e = y
+			}
+			if e == nil || !errorLike(e.Type()) {
+				continue
+			}
+			inAll := facts.every(func(cj conj) bool {
+				return cj.has(func(a2 atom) bool {
+					op2, x2, y2, ok2 := cmpAtom(a2)
+					return ok2 && op2 == token.EQL && ((x2 == e && isNilConst(y2)) || (y2 == e && isNilConst(x2)))
+				})
+			})
+			if inAll {
+				out = append(out, e)
+			}
+		}
+		return out
+	}
+
+	type site struct {
+		fn   *ssa.Function
+		call *ssa.Call
+		name string
+	}
+	var sites []site
+	collect := func(fn *ssa.Function) {
+		for _, c := range callsIn(fn, isIO) {
+			call, ok := c.(*ssa.Call)
+			name := "invoke"
+			if sc := c.Common().StaticCallee(); sc != nil {
+				name = sc.Name()
+			} else {
+				name = c.Common().Method.Name()
+			}
+			if !ok {
+				rep.Bad("STICKY", funcName(fn)+"|deferred-io|"+name, p.InstrPos(c), "I/O call of the writer is deferred / spawned: it runs whatever the writer's error state is")
+				continue
+			}
+			sites = append(sites, site{fn, call, name})
+		}
+	}
+	collect(run)
+	helpers := map[*ssa.Function]bool{}
+	for _, c := range callsIn(run, func(cal *ssa.Function, _ ssa.CallInstruction) bool {
+		return cal != nil && p.InRepo(cal) && cal != writeAt && cal != execSync && fnPkgPath(cal) == modPath
+	}) {
+		h := c.Common().StaticCallee()
+		if len(callsIn(h, isIO)) > 0 && !helpers[h] {
+			helpers[h] = true
+			rep.Analysed(funcName(h))
+			collect(h)
+		}
+	}
+
+	var runWebRoots []ssa.Value
+	for _, s := range sites {
+		key := funcName(s.fn) + "|" + s.name
+		ok := false
+		how := ""
+		for _, e := range nilGuards(s.call.Block()) {
+			if s.fn == run {
+				if phiWebReaches(e, s.call, map[ssa.Value]bool{}) {
+					ok, how = true, "guarded by err == nil on the loop-carried writer error"
+					runWebRoots = append(runWebRoots, e)
+				}
+				continue
+			}
+			// helper: e must be (fed by) an error parameter, the helper must return a value fed by the I/O
+			// result and by that parameter, and writer.Run must feed the helper's result back into that argument
+			pi := -1
+			for i, par := range s.fn.Params {
+				if phiWebReaches(e, par, map[ssa.Value]bool{}) || e == ssa.Value(par) {
+					pi = i
+				}
+			}
+			if pi < 0 {
+				continue
+			}
+			retOK := true
+			nret := 0
+			for _, b := range s.fn.Blocks {
+				r, isRet := b.Instrs[len(b.Instrs)-1].(*ssa.Return)
+				if !isRet || len(r.Results) == 0 {
+					continue
+				}
+				res := r.Results[len(r.Results)-1]
+				if !errorLike(res.Type()) {
+					retOK = false
+					continue
+				}
+				nret++
+				if isNilConst(res) {
+					if !resetGuard(blockFacts(b)) {
+						retOK = false
+					}
+					continue
+				}
+				if !(phiWebReaches(res, s.call, map[ssa.Value]bool{}) || phiWebReaches(res, s.fn.Params[pi], map[ssa.Value]bool{})) {
+					retOK = false
+				}
+			}
+			if !retOK || nret == 0 {
+				continue
+			}
+			// call sites in Run
+			fed := true
+			ncs := 0
+			for _, c := range callsIn(run, func(cal *ssa.Function, _ ssa.CallInstruction) bool { return cal == s.fn }) {
+				cv, isCall := c.(*ssa.Call)
+				if !isCall || pi >= len(c.Common().Args) {
+					fed = false
+					continue
+				}
+				ncs++
+				arg := c.Common().Args[pi]
+				if !phiWebReaches(arg, cv, map[ssa.Value]bool{}) {
+					fed = false
+				} else {
+					runWebRoots = append(runWebRoots, arg)
+				}
+			}
+			if fed && ncs > 0 {
+				ok, how = true, "guarded by err == nil on the helper's error parameter, which writer.Run feeds from the helper's own result (sticky)"
+			}
+		}
+		if ok {
+			rep.OK("STICKY", key, p.InstrPos(s.call), how)
+		} else {
+			rep.Bad("STICKY", key, p.InstrPos(s.call), "I/O call in the writer is not guarded by `err == nil` on the sticky writer error: after a failed write the writer keeps writing (pages of a failed transaction reach the file, a later sync may report success)")
+		}
+		// RELEASE (post-dominance form) only where the I/O sits directly in writer.Run; the value stored is decided by RELEASE (engine A)
+		if s.fn != run {
+			continue
+		}
+		pd := postDominators(run)
+		guardBlock := s.call.Block().Idom()
 		okRel := false
 		var relPos string
 		for _, rc := range callsIn(run, func(cal *ssa.Function, _ ssa.CallInstruction) bool { return cal == release }) {
@@ -153,11 +282,10 @@ func ruleSTICKY(p *Program, rep *Report) {
 			if guardBlock == nil || !pd[guardBlock][rb] {
 				continue
 			}
-			// err store before Release in the same block (or a dominating block after the I/O)
 			idx := instrIndex(rb, rc)
 			for i := 0; i < idx; i++ {
 				if st, ok := rb.Instrs[i].(*ssa.Store); ok && addrField(st.Addr) == errField {
-					if st.Val == call || phiWebReaches(st.Val, call, map[ssa.Value]bool{}) {
+					if st.Val == ssa.Value(s.call) || phiWebReaches(st.Val, s.call, map[ssa.Value]bool{}) {
 						okRel = true
 						relPos = p.InstrPos(rc)
 					}
@@ -165,41 +293,30 @@ func ruleSTICKY(p *Program, rep *Report) {
 			}
 		}
 		if okRel {
-			rep.OK("RELEASE", key, relPos, "Release() post-dominates the guard of the I/O call and follows the store of the error")
+			rep.OK("RELEASE", key+"|postdom", relPos, "Release() post-dominates the guard of the I/O call and follows the store of the error")
 		} else {
-			rep.Bad("RELEASE", key, p.InstrPos(call), "no Release() that is executed on every path through the message handling after the error was stored into txWriteSync.err: Wait() can hang or return a stale error")
+			rep.Bad("RELEASE", key+"|postdom", p.InstrPos(s.call), "no Release() that is executed on every path through the message handling after the error was stored into txWriteSync.err: Wait() can hang or return a stale error")
 		}
 	}
-	// reset edges
-	if webRoot != nil {
-		for phi := range phiWeb(run, webRoot) {
+	// reset edges of the loop-carried error in writer.Run
+	seenPhi := map[*ssa.Phi]bool{}
+	for _, root := range runWebRoots {
+		for phi := range phiWeb(run, root) {
+			if seenPhi[phi] {
+				continue
+			}
+			seenPhi[phi] = true
 			for i, e := range phi.Edges {
 				if !isNilConst(e) {
 					continue
 				}
 				pred := phi.Block().Preds[i]
 				key := "writer.Run|reset-edge"
-				if pred.Index == 0 || pred == run.Blocks[0] {
+				if pred == run.Blocks[0] {
 					rep.OK("STICKY", key+"|entry", p.Pos(run.Pos()), "initial value")
 					continue
 				}
-				facts := edgeFacts(pred, phi.Block(), 0, map[ssa.Value]bool{})
-				good := facts.every(func(cj conj) bool {
-					return cj.has(func(a atom) bool {
-						c := callTo(a.v, testFn)
-						if c == nil || !a.pol {
-							return false
-						}
-						args := c.Common().Args
-						k, ok := stripConv(args[len(args)-1]).(*ssa.Const)
-						if !ok || k.Value == nil {
-							return false
-						}
-						n, _ := constant.Int64Val(k.Value)
-						return n&resetBit != 0
-					})
-				})
-				if good {
+				if resetGuard(edgeFacts(pred, phi.Block(), 0, map[ssa.Value]bool{})) {
 					rep.OK("STICKY", key+"|syncResetErr", p.Pos(run.Pos()), "error reset only under syncFlags.Test(syncResetErr)")
 				} else {
 					rep.Bad("STICKY", key+"|unguarded", p.Pos(run.Pos()), "the writer's sticky error is reset to nil on a path that is not guarded by syncFlags.Test(syncResetErr)")
